@@ -1305,7 +1305,7 @@ Section AssocEntries.
       rewrite (EL_ok _ E1 f), (ER_ok _ E2 f) in A. destruct (mof f) as [m|] eqn:Hm.
       + rewrite (Hmofd f m Hm). cbn in A.
         destruct (lookup f r); destruct (lookup f r'); cbn in A; try discriminate; try exact A; exact I.
-      + destruct A as [A1 A2]. injection A1 as A1. injection A2 as A2. rewrite <- A1, <- A2. exact I.
+      + destruct A as [A1 A2]. injection A1 as A1. injection A2 as A2. rewrite A1, A2. exact I.
     - destruct (ER_err _ E2) as [f [e2 Hf]]. pose proof (field_assoc f) as A.
       rewrite (EL_ok _ E1 f), Hf in A. destruct (mof f); [exact A|]. destruct A as [_ A]. discriminate.
     - destruct (EL_err _ E1) as [f [e2 Hf]]. pose proof (field_assoc f) as A.
@@ -1332,9 +1332,9 @@ Proof.
     assert (forall a b, merge_val MForbid a b = Err EForbidden) as E by (intros a b; destruct a; reflexivity).
     rewrite !E. cbn. exact I.
   - assert (forall a b, merge_val MUseFirst a b = Ok a) as E by (intros a b; destruct a; reflexivity).
-    rewrite !E. cbn. rewrite E. apply veqb_refl. exact Hx.
+    rewrite !E. cbn. rewrite !E. cbn. apply veqb_refl. exact Hx.
   - assert (forall a b, merge_val MUseLast a b = Ok b) as E by (intros a b; destruct a; reflexivity).
-    rewrite !E. cbn. rewrite E. apply veqb_refl. exact Hz.
+    rewrite !E. cbn. rewrite !E. cbn. apply veqb_refl. exact Hz.
   - destruct x; cbn in Hx; try discriminate. destruct y; cbn in Hy; try discriminate.
     destruct z; cbn in Hz; try discriminate. cbn. rewrite app_assoc. apply atoms_eqb_eq. reflexivity.
   - destruct x; cbn in Hx; try discriminate. destruct y; cbn in Hy; try discriminate.
@@ -1349,7 +1349,7 @@ Proof.
     specialize (A _ _ _ Wx Wy Wz). unfold EL, ER in A. rewrite !merge_val_obj.
     destruct (merge_entries merge_val (fun f => lookup f sch) (unobj x) (unobj y)) as [ab|e1];
       destruct (merge_entries merge_val (fun f => lookup f sch) (unobj y) (unobj z)) as [bc|e2];
-      cbn in *; rewrite ?merge_val_obj.
+      cbn [mbind] in *; rewrite ?merge_val_obj.
     + destruct (merge_entries merge_val (fun f => lookup f sch) ab (unobj z));
         destruct (merge_entries merge_val (fun f => lookup f sch) (unobj x) bc); cbn in *; try exact A.
       destruct A as [A1 A2]. rewrite A1, A2. reflexivity.
@@ -1365,7 +1365,7 @@ Proof.
     specialize (A _ _ _ Wx Wy Wz). unfold EL, ER in A. rewrite !merge_val_dict.
     destruct (merge_entries merge_val (fun _ => Some vm) (undict x) (undict y)) as [ab|e1];
       destruct (merge_entries merge_val (fun _ => Some vm) (undict y) (undict z)) as [bc|e2];
-      cbn in *; rewrite ?merge_val_dict.
+      cbn [mbind] in *; rewrite ?merge_val_dict.
     + destruct (merge_entries merge_val (fun _ => Some vm) ab (undict z));
         destruct (merge_entries merge_val (fun _ => Some vm) (undict x) bc); cbn in *; try exact A.
       destruct A as [A1 A2]. rewrite A1, A2. reflexivity.
@@ -1386,7 +1386,7 @@ Proof.
   rewrite !merge_val_obj in A. rewrite !merge_is_merge_entries.
   destruct (merge_entries merge_val (fun f => lookup f sch) a b) as [ab|e1];
     destruct (merge_entries merge_val (fun f => lookup f sch) b c) as [bc|e2];
-    cbn in *; rewrite ?merge_val_obj in A; rewrite ?merge_is_merge_entries.
+    cbn [mbind bind] in *; rewrite ?merge_val_obj in A; rewrite ?merge_is_merge_entries.
   - destruct (merge_entries merge_val (fun f => lookup f sch) ab c);
       destruct (merge_entries merge_val (fun f => lookup f sch) a bc); cbn in *;
         try contradiction; try reflexivity; exact A.
